@@ -132,7 +132,18 @@ fn name_is_safe(n: &str) -> bool {
     true
 }
 
+/// hostile name, sometimes with backslashes in place of (some of) the slashes: on this host a backslash is an
+/// ordinary character, so `..\x` is one harmless component - unless something rewrites it after validation
 fn gen_xname(r: &mut Rng, used: &[String]) -> String {
+    let n = gen_xname_slash(r, used);
+    match r.below(10) {
+        0 => n.replace('/', "\\"),
+        1 => n.chars().map(|c| if c == '/' && r.chance(1, 2) { '\\' } else { c }).collect(),
+        _ => n,
+    }
+}
+
+fn gen_xname_slash(r: &mut Rng, used: &[String]) -> String {
     let w = gen_word(r);
     match r.below(36) {
         0 => format!("../{w}"),
